@@ -289,6 +289,29 @@ class Lang(object):
             return [] if seen else [(Mk.delta[x][self.MARK], True)]
         return determinize(self.nsym, [(Mk.start, False)], step, eps, lambda q: q[1] and q[0] in Mk.acc)
 
+    def consumed_prefixes(self, Mk):
+        """{ u | u#v in Mk for some v }"""
+        n = Mk.n
+        # states from which an accepting state is reachable
+        rev = [[] for _ in range(n)]
+        for q in range(n):
+            for a in range(Mk.nsym):
+                rev[Mk.delta[q][a]].append(q)
+        co = set(Mk.acc)
+        stack = list(co)
+        while stack:
+            q = stack.pop()
+            for r in rev[q]:
+                if r not in co:
+                    co.add(r)
+                    stack.append(r)
+        dead = n
+        delta = [list(row) for row in Mk.delta] + [[dead] * Mk.nsym]
+        for q in range(n + 1):
+            delta[q][self.MARK] = dead
+        acc = [q for q in range(n) if Mk.delta[q][self.MARK] in co]
+        return minimize(DFA(Mk.nsym, delta, acc, Mk.start))
+
     def consumed_whole(self, Mk):
         """{ u | u# in Mk }"""
         return self.erase_marker(inter(Mk, self.concat(self.sigma_star(), self.mark())))
